@@ -10,6 +10,8 @@ CONSTANTS
   Depth = 6
   PFault <- SampleConfigs
   Sym = FALSE
+  DeepConfigs <- NoConfigs
+  DeepDepth = 0
 CONSTRAINT Emit
 INVARIANTS Conforms
 CHECK_DEADLOCK FALSE
